@@ -1,7 +1,7 @@
 (* C01 property theorems. This file contains only statements closed by
    [exact lemma] and Print Assumptions. *)
 From V Require Import Common.Base C01.Utf C01.Quote C01.SpecLiteral C01.QuoteProofs.
-From V Require Import C01.Num C01.SpecNumeric C01.NumProofs C01.NumProofs2 C01.ScriptProofs.
+From V Require Import C01.Num C01.SpecNumeric C01.NumProofs C01.NumProofs2 C01.NumFlag C01.ScriptProofs.
 From V Require Import C13.Token C13.ParseSpec C01.CommaTrace.
 From V Require Import gen.IdTablesGen C01.Keys C01.KeysProofs.
 From V Require Import C01.Template C01.TemplateProofs C01.Tagged C01.TaggedProofs.
@@ -125,6 +125,16 @@ Theorem print_number_literal_value : forall (FormatFloat : Z -> bytes),
     value_preserved out (FormatFloat bits) \/ exists v, float_int bits = Some v /\ mv out = Some (v, 0).
 Proof. exact print_number_literal_value_all. Qed.
 Print Assumptions print_number_literal_value.
+
+(* needSpaceBeforeDot: for every float and every FormatFloat text shape the flag
+   printNonNegativeFloat sets is true exactly when the bytes printed are a bare
+   run of decimal digits - the only case in which a following "." would be
+   read as a decimal point ("1 .toString()"); "1e3", ".5", "1.5", "0x10" need no space *)
+Theorem shorten_dot_flag : forall mw bits s,
+  0 <= bits -> float_text s ->
+  snd (printNonNegativeFloat mw bits s) = forallb dig (fst (printNonNegativeFloat mw bits s)).
+Proof. exact shorten_dot_flag_all. Qed.
+Print Assumptions shorten_dot_flag.
 
 (* ---- expressions: the C01 side of C13's print_parse_roundtrip ---- *)
 
